@@ -238,3 +238,16 @@ var _ = pr.AutoF
 //@   modifies nothing
 //@   ensures second(siblingBefore.PageValues()) != first(siblingAfter.PageValues()) ==> result == first(siblingAfter.PageValues())
 //@   ensures second(siblingBefore.PageValues()) == first(siblingAfter.PageValues()) ==> result == ""
+
+// C11: a line box is as tall as its contents. maxY / minY are running extrema over the in-flow
+// children (and, recursively, over the contents of nested inline boxes): every assignment
+// can only raise maxY and lower minY — in particular what a nested inline box contributes
+// never shrinks the extent already reached by earlier siblings.
+//@ func inlineBoxVerticality
+//@   props C11
+//@   modifies anything
+//@   assert after maxY#2: prev == nil || maxY.V() >= prev.V()
+//@   assert after maxY#3: prev != nil && maxY.V() >= prev.V()
+//@   assert after minY#2: prev == nil || minY.V() <= prev.V()
+//@   assert after minY#3: prev != nil && minY.V() <= prev.V()
+//@   unclaimed call-MarginHeight@*-pre1 "the margins, borders, paddings and height of a laid-out inline-level box are resolved (not tracked through the box tree)"
